@@ -268,6 +268,8 @@ class FakePoll:
                 o = w0.fds.get(fd)
                 if o is not None and o.closed:
                     out[fd] = out.get(fd, 0) | S.POLLNVAL
+                elif o is not None and getattr(o, "in_rst", False):
+                    out[fd] = out.get(fd, 0) | S.POLLERR | S.POLLHUP   # what poll(2) reports for a reset connection
         return sorted(out.items())
 
 
